@@ -224,6 +224,8 @@ pub struct StepOut {
     /// certificates announced in this step that ValidatedCert::try_new rejects
     pub invalid_certs: Vec<String>,
     pub verdict: String,
+    /// problems found when the standstill bundle is validated and replayed into a fresh real pool
+    pub bundle_problem: Option<String>,
 }
 
 pub struct Runner {
@@ -376,6 +378,14 @@ impl Runner {
                 }
             }
         }
+        let mut bundle_problem = None;
+        if !panicked {
+            for e in &events {
+                if let PoolEvent::Standstill(_, cs, vs) = e {
+                    bundle_problem = check_bundle(&self.epoch, cs, vs, self.pool.finalized_slot().inner(), &self.pool, self.max_slot);
+                }
+            }
+        }
         let (finalized, first_unpruned, retained, parents_ready) = if panicked {
             (0, 0, Vec::new(), Vec::new())
         } else {
@@ -397,9 +407,57 @@ impl Runner {
         StepOut {
             op_txt,
             res_txt: res.unwrap_or_else(|_| "RPanic".to_string()),
-            events, repairs, woken, finalized, first_unpruned, retained, parents_ready, panicked, invalid_certs, verdict,
+            events, repairs, woken, finalized, first_unpruned, retained, parents_ready, panicked, invalid_certs, verdict, bundle_problem,
         }
     }
+}
+
+/// Every element of the bundle must pass validation at a receiver, and a second, fresh real pool fed
+/// only the bundle must reach the same finalized slot and the same ready parents for later windows.
+pub fn check_bundle(epoch: &Arc<ValidatorEpochInfo>, cs: &[Cert], vs: &[Vote], fin: u64, orig: &PoolImpl, max_slot: u64) -> Option<String> {
+    for c in cs {
+        if ValidatedCert::try_new(c.clone(), epoch.epoch_info()).is_err() {
+            return Some(format!("bundle certificate fails validation: {}", r_cert(c)));
+        }
+    }
+    for v in vs {
+        if ValidatedVote::try_new(v.clone(), epoch.epoch_info()).is_err() {
+            return Some(format!("bundle vote fails validation: {}", r_vote(v)));
+        }
+    }
+    let rt = tokio::runtime::Builder::new_current_thread().enable_all().build().expect("rt");
+    let (ev_tx, _ev_rx) = mpsc::channel(1 << 16);
+    let (rp_tx, _rp_rx) = mpsc::channel(1 << 16);
+    let mut fresh = PoolImpl::new(epoch.clone(), ev_tx, rp_tx);
+    let r = catch_unwind(AssertUnwindSafe(|| {
+        for c in cs {
+            let vc = ValidatedCert::try_new(c.clone(), epoch.epoch_info()).unwrap();
+            let _ = rt.block_on(fresh.add_cert(vc));
+        }
+        for v in vs {
+            let vv = ValidatedVote::try_new(v.clone(), epoch.epoch_info()).unwrap();
+            let _ = rt.block_on(fresh.add_vote(vv));
+        }
+    }));
+    if r.is_err() {
+        return Some("fresh pool panicked while receiving the bundle".into());
+    }
+    if fresh.finalized_slot().inner() != fin {
+        return Some(format!("fresh pool reaches finalized slot {} instead of {}", fresh.finalized_slot().inner(), fin));
+    }
+    let mut s = 0;
+    while s <= max_slot + SLOTS_PER_WINDOW {
+        if s > fin {
+            let mut a: Vec<(u64, u64)> = orig.parents_ready(Slot::new(s)).iter().map(|b| (b.0.inner(), id_of(&b.1))).collect();
+            let mut b: Vec<(u64, u64)> = fresh.parents_ready(Slot::new(s)).iter().map(|b| (b.0.inner(), id_of(&b.1))).collect();
+            a.sort(); b.sort();
+            if a != b {
+                return Some(format!("fresh pool has ready parents {:?} for window {} instead of {:?}", b, s, a));
+            }
+        }
+        s += SLOTS_PER_WINDOW;
+    }
+    None
 }
 
 pub fn r_step(o: &StepOut) -> String {
